@@ -1063,6 +1063,7 @@ class _Linalg:
         if hasattr(x, "_symq_value") and not isinstance(x, SymArray):
             x = x._symq_value()
         x = x if isinstance(x, SymArray) else SymArray(_obj(x))
+        x = SymArray(x.a.copy(), x.dtype)     # snapshot: callers reuse their buffers
         n = x.a.shape[0]
         Y = _np.empty((n, n), dtype=object)
         for i in builtins.range(n):
